@@ -16,7 +16,7 @@ for d in seeded/*${PAT}*/; do
   t0=$(date +%s)
   out=$(./check $prop --tier $TIER 2>&1); rc=$?
   nviol=$(echo "$out" | grep -c "^VIOLATION property=$prop ")
-  first=$(echo "$out" | grep "^violation: property=$prop" | head -1 | tr '\n\t' '  ' | cut -c1-260)
+  first=$(echo "$out" | grep "^violation: property=$prop" | head -1 | tr '\n\t' '  ' | cut -c1-260 | iconv -f utf-8 -t utf-8 -c)
   mkdir -p $d/replays; cp $TMPD/replays/$prop-*.json $d/replays/ 2>/dev/null; rm -f $TMPD/replays/*.json
   git -C /repo checkout -- .
   t1=$(date +%s)
